@@ -147,7 +147,7 @@ impl Prop for C04 {
     fn stages(&self, tier: Tier) -> Vec<Stage<Case>> {
         let k = tier.pick(40, 60);
         let s = (gen::file_spec(tier), vec(range_strategy(), k)).prop_map(|(spec, ranges)| Case { spec, ranges });
-        vec![stage("files", s, tier.pick(1500, 30_000)).shrink(800)]
+        vec![stage("files", s, tier.pick(3000, 40_000)).shrink(800)]
     }
 
     fn rule(&self) -> String {
